@@ -91,6 +91,25 @@ def make_fn(L):
                 o.viol("C08", "root_node_differs", "root_node != traverse(())")
         except Exception as e:  # noqa
             o.viol("C08", "root_node_raised", f"root_node / traverse(()) raised {type(e).__name__}", exc=repr(e)[:160])
+        if not model:
+            for r0 in (b"",):
+                o.evals += 1
+                from trie import HexaryTrie as _HT
+                try:
+                    t0 = _HT({}, r0)
+                    a_, b_ = None, None
+                    try:
+                        a_ = ann(t0.root_node)
+                    except Exception as e:  # noqa
+                        a_ = type(e).__name__
+                    try:
+                        b_ = ann(t0.traverse(()))
+                    except Exception as e:  # noqa
+                        b_ = type(e).__name__
+                    if a_ != b_:
+                        o.viol("C08", "root_node_differs", "root_node != traverse(()) for an empty trie opened at the blank node", got=(a_, b_))
+                except Exception:  # noqa
+                    pass
         positions = []
         for p in paths:
             o.evals += 1
